@@ -92,6 +92,23 @@ Definition streamJ (c : nat) (k : call) (ls : list label) (W : list env) : Prop 
                 (forall b q, s_sendq k = Some b :: q -> nC = 0%nat) /\ (nR <= 1)%nat /\
                 (nR = 1%nat -> rst_loop (s_loop k) = true /\ sctx_done k = true).
 
+Definition is_ctx_err (e : option cerr) : bool :=
+  match e with Some ECanceled | Some EDeadline => true | _ => false end.
+Definition nrst (W : list env) : nat := length (filter erst W).
+Definition is_wfail_on (l : label) : bool := match l with LExt (ASetWriteFail true) => true | _ => false end.
+Definition no_wfail (ls : list label) : Prop := forall l, In l ls -> is_wfail_on l = false.
+
+(* resets: at most one per stream, written by the stream loop's deferred block, never after a received
+   trailer, and always written when the loop ends because of the context (or aborts) unless writes fail *)
+Definition rstJ (k : call) (ls : list label) (W : list env) : Prop :=
+  (k_pc k <> POpen -> nrst W = 0%nat) /\
+  (nrst W <= 1)%nat /\
+  (nrst W = 1%nat -> rst_loop (s_loop k) = true /\ l_hastrl k = false /\ (l_abort k = true \/ sctx_done k = true)) /\
+  (rst_loop (s_loop k) = true -> k_pc k = POpen -> no_wfail ls -> l_hastrl k = false ->
+   (l_abort k = true \/ is_ctx_err (l_rerr k) = true) -> nrst W = 1%nat) /\
+  (s_loop k = LExit -> is_ctx_err (l_rerr k) = true -> sctx_done k = true) /\
+  (s_done k = true -> s_rerr k = l_rerr k).
+
 Definition callJ (c : nat) (k : call) (ls : list label) (W : list env) : Prop :=
   (length (s_sendq k) <= 1)%nat /\
   (running_loop (s_loop k) = true -> l_abort k = false) /\
@@ -100,8 +117,9 @@ Definition callJ (c : nat) (k : call) (ls : list label) (W : list env) : Prop :=
   | PCheck _ | PParked | PReg | POpenUnreg _ | POpenFailed => W = []
   | PWait => W = [req_env (k_id k) (k_payload k)]
   | PUnreg _ | PRet => W = [] \/ W = [req_env (k_id k) (k_payload k)]
-  | POpen => l_abort k = false -> streamJ c k ls W
-  end.
+  | POpen => l_abort k = false -> api_ok ls -> streamJ c k ls W
+  end /\
+  rstJ k ls W.
 
 Definition J (ls : list label) (s : state) : Prop :=
   (forall e, In e (wr s) -> 0 < eid e <= counter s) /\
@@ -115,11 +133,25 @@ Proof.
 Qed.
 
 (* ---------- monotonicity in the label sequence ---------- *)
-Lemma callJ_mono c k ls ls' W : (closes c ls <= closes c ls')%nat -> callJ c k ls W -> callJ c k ls' W.
+Definition ext_ok (ls ls' : list label) : Prop :=
+  (forall d, closes d ls <= closes d ls')%nat /\ (api_ok ls' -> api_ok ls) /\ (no_wfail ls' -> no_wfail ls).
+
+Lemma ext_ok_snoc ls l : ext_ok ls (ls ++ [l]).
 Proof.
-  intros Hle (H1 & H2 & H3 & H4). repeat split; auto.
-  destruct (k_pc k); auto. intros Ha. destruct (H4 Ha) as (nC & nR & S & A & B & C & D).
-  exists nC, nR. repeat split; auto; try lia; apply D; auto.
+  split; [|split].
+  - intros d. rewrite closes_app. lia.
+  - apply api_ok_prefix.
+  - intros H x Hin. apply H. apply in_or_app. auto.
+Qed.
+
+Lemma callJ_mono c k ls ls' W : ext_ok ls ls' -> callJ c k ls W -> callJ c k ls' W.
+Proof.
+  intros (Hle & Hapi & Hnw) (H1 & H2 & H3 & H4 & R0 & R1 & R2 & R3 & R4 & R5). repeat split; auto.
+  - destruct (k_pc k); auto. intros Ha Hok. destruct (H4 Ha (Hapi Hok)) as (nC & nR & S & A & B & C & D).
+    exists nC, nR. specialize (Hle c). repeat split; auto; try lia; apply D; auto.
+  - apply R2; auto.
+  - apply R2; auto.
+  - apply R2; auto.
 Qed.
 
 Lemma closes_snoc_le c ls l : (closes c ls <= closes c (ls ++ [l]))%nat.
@@ -131,7 +163,7 @@ Lemma J_upd ls ls' s s' c k k' evs :
   nth_error (calls s) c = Some k ->
   calls s' = upd c k' (calls s) -> log s' = log s ++ evs -> counter s' = counter s ->
   k_id k' = k_id k ->
-  (forall d, closes d ls <= closes d ls')%nat ->
+  ext_ok ls ls' ->
   (forall e, In e (wr_of evs) -> eid e = k_id k /\ 0 < k_id k) ->
   callJ c k' ls' (projE (k_id k) (wr s) ++ wr_of evs) ->
   J ls' s'.
@@ -151,7 +183,7 @@ Proof.
   - rewrite Hwr, Hc. intros c0 k0 Hn0. apply nth_upd_inv in Hn0. destruct Hn0 as [[-> ->]|[Hne Hn0]].
     + rewrite Hid, projE_app. rewrite (projE_all (k_id k) (wr_of evs)); auto. intros e Hin. apply Hw; auto.
     + rewrite projE_app. rewrite (projE_none (k_id k0) (wr_of evs)).
-      * rewrite app_nil_r. eapply callJ_mono; [apply Hcl|]. apply J3; auto.
+      * rewrite app_nil_r. eapply callJ_mono; [exact Hcl|]. apply J3; auto.
       * intros e Hin. destruct (Hw _ Hin) as [-> Hpos]. eapply (si_id_uniq _ HS c c0); eauto.
 Qed.
 
@@ -161,7 +193,7 @@ Lemma J_upd0 ls ls' s s' c k k' evs :
   nth_error (calls s) c = Some k ->
   calls s' = upd c k' (calls s) -> log s' = log s ++ evs -> counter s' = counter s ->
   k_id k' = k_id k ->
-  (forall d, closes d ls <= closes d ls')%nat ->
+  ext_ok ls ls' ->
   wr_of evs = [] ->
   callJ c k' ls' (projE (k_id k) (wr s)) ->
   J ls' s'.
@@ -174,13 +206,13 @@ Qed.
 (* a step that touches no call and writes nothing *)
 Lemma J_same ls ls' s s' evs :
   J ls s -> calls s' = calls s -> log s' = log s ++ evs -> wr_of evs = [] -> counter s <= counter s' ->
-  (forall d, closes d ls <= closes d ls')%nat -> J ls' s'.
+  ext_ok ls ls' -> J ls' s'.
 Proof.
   intros (J1 & J2 & J3) Hc Hl Hw Hco Hcl.
   assert (Hwr : wr s' = wr s). { unfold wr. rewrite Hl, wr_of_app, Hw, app_nil_r. auto. }
   split; [|split]; rewrite ?Hwr, ?Hc; auto.
   - intros e Hin. specialize (J1 _ Hin). lia.
-  - intros c k Hn. eapply callJ_mono; [apply Hcl|]. auto.
+  - intros c k Hn. eapply callJ_mono; [exact Hcl|]. auto.
 Qed.
 
 Lemma J_updN ls ls' s s' c k k' :
@@ -188,7 +220,7 @@ Lemma J_updN ls ls' s s' c k k' :
   nth_error (calls s) c = Some k ->
   calls s' = upd c k' (calls s) -> log s' = log s -> counter s' = counter s ->
   k_id k' = k_id k ->
-  (forall d, closes d ls <= closes d ls')%nat ->
+  ext_ok ls ls' ->
   callJ c k' ls' (projE (k_id k) (wr s)) ->
   J ls' s'.
 Proof.
@@ -203,24 +235,89 @@ Lemma callJ_frame c k k' ls ls' W :
   (pc_fresh (k_pc k') = true -> l_abort k' = false) ->
   (rst_loop (s_loop k) = true -> rst_loop (s_loop k') = true) ->
   (sctx_done k = true -> sctx_done k' = true) ->
-  (closes c ls <= closes c ls')%nat ->
+  (* the deferred block's inputs are frozen once the loop has passed the reset decision *)
+  (rst_loop (s_loop k') = true -> rst_loop (s_loop k) = true /\ l_hastrl k' = l_hastrl k /\ l_abort k' = l_abort k /\ l_rerr k' = l_rerr k) ->
+  (s_loop k' = LExit -> is_ctx_err (l_rerr k') = true -> sctx_done k' = true) ->
+  (s_done k' = true -> s_rerr k' = l_rerr k' \/ (s_done k = true /\ s_rerr k' = s_rerr k /\ l_rerr k' = l_rerr k)) ->
+  ext_ok ls ls' ->
   callJ c k ls W -> callJ c k' ls' W.
 Proof.
-  intros Hpc Hid Hpl Hsq Hab Hrun Hfr Hrl Hctx Hcl (H1 & H2 & H3 & H4).
-  unfold callJ. rewrite Hpc, Hid, Hpl, Hsq. repeat split; auto.
-  - rewrite <- Hpc. auto.
-  - destruct (k_pc k); auto. intros Ha. destruct (H4 (Hab Ha)) as (nC & nR & S & A & B & C & D).
-    exists nC, nR. unfold pend_close in *. rewrite Hid, Hsq. repeat split; auto; try lia.
-    + apply Hrl. apply D; auto.
-    + apply Hctx. apply D; auto.
+  intros Hpc Hid Hpl Hsq Hab Hrun Hfr Hrl Hctx Hfz Hx Hdn Hcl HW.
+  apply (callJ_mono _ _ _ _ _ Hcl) in HW. destruct HW as (H1 & H2 & H3 & H4 & R0 & R1 & R2 & R3 & R4 & R5).
+  unfold callJ, rstJ. rewrite Hpc, Hid, Hpl, Hsq. split; [auto|split; [auto|split; [rewrite <- Hpc; auto|split; [|split; [auto|split; [auto|split; [|split; [|split]]]]]]]].
+  - destruct (k_pc k); auto. intros Ha Hok. destruct (H4 (Hab Ha) Hok) as (nC & nR & S & A & B & C & D).
+    exists nC, nR. unfold pend_close in *. rewrite Hid, Hsq. repeat split; auto; try lia;
+      [apply Hrl; apply D; auto | apply Hctx; apply D; auto].
+  - intros Hn. destruct (R2 Hn) as (X1 & X2 & X3). destruct (Hfz (Hrl X1)) as (_ & F1 & F2 & _). split; [auto|split].
+    + congruence.
+    + destruct X3 as [X3|X3]; [left; congruence|right; auto].
+  - intros Hr Hp Hnw Ht Hc. destruct (Hfz Hr) as (F0 & F1 & F2 & F3). apply R3; auto; try congruence.
+  - auto.
+  - intros Hd. destruct (Hdn Hd) as [F|(F0 & F1 & F2)]; auto. rewrite F1, F2. auto.
 Qed.
 
+Lemma rstJ_closed k ls W :
+  k_pc k <> POpen -> nrst W = 0%nat -> s_loop k <> LExit -> s_done k = false -> rstJ k ls W.
+Proof.
+  intros Hp Hn Hl Hd. unfold rstJ. rewrite Hn, Hd. repeat split; auto; try lia; try discriminate; try congruence.
+Qed.
+
+Lemma kinv_notdone k : kinv k -> k_pc k <> POpen -> s_done k = false.
+Proof. intros K Hp. destruct (s_done k) eqn:E; auto. exfalso. apply Hp. apply (ki_done_dead _ K E). Qed.
+
+Lemma rstJ_zero k ls W : nrst W = 0%nat -> rst_loop (s_loop k) = false -> s_loop k <> LExit -> s_done k = false -> rstJ k ls W.
+Proof.
+  intros Hn Hl He Hd. unfold rstJ. rewrite Hn, Hl, Hd. repeat split; auto; try lia; try discriminate; try congruence.
+Qed.
+
+Lemma rstJ_frame k k' ls ls' W :
+  k_pc k' = k_pc k -> s_loop k' = s_loop k -> l_hastrl k' = l_hastrl k -> l_abort k' = l_abort k -> l_rerr k' = l_rerr k ->
+  (sctx_done k = true -> sctx_done k' = true) -> (no_wfail ls' -> no_wfail ls) ->
+  s_done k' = s_done k -> s_rerr k' = s_rerr k ->
+  rstJ k ls W -> rstJ k' ls' W.
+Proof.
+  intros E1 E2 E3 E4 E5 Hc Hnw E6 E7 (R0 & R1 & R2 & R3 & R4 & R5). unfold rstJ. rewrite E1, E2, E3, E4, E5, E6, E7.
+  split; [auto|split; [auto|split; [|split; [|split]]]]; auto;
+    try (intros Hn; destruct (R2 Hn) as (X1 & X2 & [X3|X3]); auto; fail);
+    try (intros; apply R3; auto; fail);
+    try (intros; apply Hc; apply R4; auto; fail).
+Qed.
+
+Lemma final_not_ctx e x : final_of e = Some x -> is_ctx_err (Some x) = false.
+Proof.
+  unfold final_of. destruct (erst e); [intros H; inversion H; reflexivity|].
+  destruct (etrl e); try discriminate. destruct (estatus e) as [st|]; [destruct (st_code st =? 0)|]; intros H; inversion H; reflexivity.
+Qed.
+
+Lemma nrst_app a b : nrst (a ++ b) = (nrst a + nrst b)%nat.
+Proof. unfold nrst. rewrite filter_app, app_length. auto. Qed.
+
+Lemma kinv_dead k : kinv k -> k_pc k <> POpen -> s_loop k = LDead.
+Proof.
+  intros K Hp. destruct (s_loop k) eqn:E; auto; exfalso; apply Hp; apply (ki_loop_open _ K); unfold loop_alive; rewrite E; reflexivity.
+Qed.
+
+Lemma nrst_unary W id p : W = [] \/ W = [req_env id p] -> nrst W = 0%nat.
+Proof. intros [->| ->]; reflexivity. Qed.
+
 Ltac fsimpl := unfold running_loop, rst_loop, pc_fresh, sctx_done in *; csimpl.
+
+Ltac pc_tac HW Ep :=
+  let A := fresh "KA" in let B := fresh "KB" in let C := fresh "KC" in let D := fresh "KD" in let R := fresh "KR" in
+  destruct HW as (A & B & C & D & R); rewrite Ep in *; unfold callJ; fsimpl;
+  split; [|split; [|split; [|split]]]; auto;
+  try (match goal with K : kinv ?k0 |- rstJ _ _ _ =>
+         apply rstJ_closed; csimpl;
+         [ try discriminate; try congruence
+         | first [ rewrite D; reflexivity | apply (nrst_unary _ _ _ D) | apply (nrst_unary _ (k_id k0) (k_payload k0)); auto ]
+         | rewrite (kinv_dead _ K) by (rewrite Ep; discriminate); discriminate
+         | apply (kinv_notdone _ K); rewrite Ep; discriminate ]
+       end).
 
 (* a new call record is appended *)
 Lemma J_new ls ls' s s' k0 :
   J ls s -> calls s' = calls s ++ [k0] -> log s' = log s -> counter s' = counter s -> k_id k0 = 0 ->
-  (forall d, closes d ls <= closes d ls')%nat ->
+  ext_ok ls ls' ->
   callJ (length (calls s)) k0 ls' [] -> J ls' s'.
 Proof.
   intros (J1 & J2 & J3) Hc Hl Hco Hid Hcl Hk.
@@ -229,7 +326,7 @@ Proof.
   - intros e Hin. destruct (J2 _ Hin) as (c & k & Hn & Hi). exists c, k. split; auto.
     rewrite nth_error_app1; eauto using nth_some_lt.
   - intros c k Hn. apply nth_app_cases in Hn. destruct Hn as [[Hn _]|[-> ->]].
-    + eapply callJ_mono; [apply Hcl|]. auto.
+    + eapply callJ_mono; [exact Hcl|]. auto.
     + rewrite Hid. rewrite projE_none; auto. intros e Hin. specialize (J1 _ Hin). lia.
 Qed.
 
@@ -237,7 +334,7 @@ Qed.
 Lemma J_alloc ls ls' s s' c k k' :
   cinv s -> J ls s -> nth_error (calls s) c = Some k -> k_id k = 0 -> k_id k' = counter s + 1 ->
   calls s' = upd c k' (calls s) -> log s' = log s -> counter s' = counter s + 1 ->
-  (forall d, closes d ls <= closes d ls')%nat ->
+  ext_ok ls ls' ->
   callJ c k' ls' [] -> J ls' s'.
 Proof.
   intros HI (J1 & J2 & J3) Hn Hid0 Hid Hc Hl Hco Hcl Hk.
@@ -250,7 +347,7 @@ Proof.
     + exists c0, k0. rewrite nth_upd_neq; auto.
   - intros c0 k0 Hn0. apply nth_upd_inv in Hn0. destruct Hn0 as [[-> ->]|[Hne Hn0]].
     + rewrite Hid. rewrite projE_none; auto. intros e Hin. specialize (J1 _ Hin). lia.
-    + eapply callJ_mono; [apply Hcl|]. auto.
+    + eapply callJ_mono; [exact Hcl|]. auto.
 Qed.
 
 (* ---------- environment actions ---------- *)
@@ -264,37 +361,49 @@ Proof.
   destruct (nth_error (calls s) c) eqn:E; [destruct (f c0) eqn:Ef|].
   - destruct (Hf _ _ eq_refl Ef) as [Hid Hk]. destruct HJ as (J1 & J2 & J3).
     eapply (J_updN ls (ls ++ [l]) s _ c c0 c1 HI HS (conj J1 (conj J2 J3)) E);
-      [reflexivity|reflexivity|reflexivity|exact Hid|intros; apply closes_snoc_le|apply Hk; apply J3; auto].
-  - eapply (J_same ls _ s s []); eauto; try reflexivity; try lia. rewrite app_nil_r; auto. intros; apply closes_snoc_le.
-  - eapply (J_same ls _ s s []); eauto; try reflexivity; try lia. rewrite app_nil_r; auto. intros; apply closes_snoc_le.
+      [reflexivity|reflexivity|reflexivity|exact Hid|apply ext_ok_snoc|apply Hk; apply J3; auto].
+  - eapply (J_same ls _ s s []); eauto; try reflexivity; try lia. rewrite app_nil_r; auto. apply ext_ok_snoc.
+  - eapply (J_same ls _ s s []); eauto; try reflexivity; try lia. rewrite app_nil_r; auto. apply ext_ok_snoc.
 Qed.
+
+Ltac frame_fin R4 :=
+  fsimpl; auto;
+  try (intros; repeat split; auto; fail);
+  try (intros; right; repeat split; auto; fail);
+  try (intros; left; reflexivity);
+  try (intros; rewrite ?orb_true_r; auto with bool; fail);
+  try (intros; discriminate);
+  try (let HL := fresh in let HE := fresh in intros HL HE; specialize (R4 HL HE); fsimpl;
+       rewrite ?orb_true_r; auto with bool;
+       try (apply orb_true_iff in R4; destruct R4 as [R4|R4]; rewrite ?R4, ?orb_true_r; auto with bool); fail).
 
 Ltac frame_tac :=
   match goal with HW : callJ _ ?k0 _ _ |- _ =>
     let A := fresh "KA" in let B := fresh "KB" in let C := fresh "KC" in let D := fresh "KD" in
-    pose proof HW as (A & B & C & D);
-    eapply (callJ_frame _ k0); [reflexivity | reflexivity | reflexivity | reflexivity | | | | | | apply closes_snoc_le | exact HW];
-    clear D; fsimpl; auto; try (intros; rewrite ?orb_true_r; auto with bool; fail)
+    let R0 := fresh "R0" in let R1 := fresh "R1" in let R2 := fresh "R2" in let R3 := fresh "R3" in let R4 := fresh "R4" in let R5 := fresh "R5" in
+    pose proof HW as (A & B & C & D & R0 & R1 & R2 & R3 & R4 & R5);
+    eapply (callJ_frame _ k0); [reflexivity | reflexivity | reflexivity | reflexivity | | | | | | | | | apply ext_ok_snoc | exact HW];
+    clear D R0 R1 R2 R3 R5; frame_fin R4
   end.
 
-Lemma J_ext ls s a : cinv s -> sinv s -> J ls s -> api_ok (ls ++ [LExt a]) -> J (ls ++ [LExt a]) (ext s a).
+Lemma J_ext ls s a : cinv s -> sinv s -> J ls s -> J (ls ++ [LExt a]) (ext s a).
 Proof.
-  intros HI HS HJ Hapi. destruct a; simpl.
-  - eapply (J_new ls _ s _ (new_call true payload park)); eauto; try reflexivity. intros; apply closes_snoc_le.
-    unfold callJ; csimpl. repeat split; auto.
-  - eapply (J_new ls _ s _ (new_call false 0 park)); eauto; try reflexivity. intros; apply closes_snoc_le.
-    unfold callJ; csimpl. repeat split; auto.
+  intros HI HS HJ. destruct a; simpl.
+  - eapply (J_new ls _ s _ (new_call true payload park)); eauto; try reflexivity. apply ext_ok_snoc.
+    unfold callJ; csimpl. split; [|split; [|split; [|split]]]; auto. apply rstJ_closed; csimpl; auto; discriminate.
+  - eapply (J_new ls _ s _ (new_call false 0 park)); eauto; try reflexivity. apply ext_ok_snoc.
+    unfold callJ; csimpl. split; [|split; [|split; [|split]]]; auto. apply rstJ_closed; csimpl; auto; discriminate.
   - (* ARelease *)
     destruct (nth_error (calls s) c) eqn:E.
-    2:{ eapply (J_same ls _ s s []); eauto; try reflexivity; try lia. rewrite app_nil_r; auto. intros; apply closes_snoc_le. }
+    2:{ eapply (J_same ls _ s s []); eauto; try reflexivity; try lia. rewrite app_nil_r; auto. apply ext_ok_snoc. }
     destruct (k_pc c0) eqn:Ep;
-      try (eapply (J_same ls _ s s []); eauto; try reflexivity; try lia; [rewrite app_nil_r; auto | intros; apply closes_snoc_le]; fail).
+      try (eapply (J_same ls _ s s []); eauto; try reflexivity; try lia; [rewrite app_nil_r; auto | apply ext_ok_snoc]; fail).
     pose proof (cinv_call _ _ _ HI E) as K.
-    destruct HJ as (J1 & J2 & J3). pose proof (J3 _ _ E) as (H1 & H2 & H3 & H4).
-    eapply (J_alloc ls _ s _ c c0 (set_id (set_pc c0 PReg) (counter s + 1)) HI (conj J1 (conj J2 J3)) E); try reflexivity.
+    pose proof (proj2 (proj2 HJ) _ _ E) as HW.
+    eapply (J_alloc ls _ s _ c c0 (set_id (set_pc c0 PReg) (counter s + 1)) HI HJ E); try reflexivity.
     + apply (ki_noid _ K). rewrite Ep. reflexivity.
-    + intros; apply closes_snoc_le.
-    + unfold callJ; csimpl. rewrite Ep in *. repeat split; auto.
+    + apply ext_ok_snoc.
+    + pc_tac HW Ep.
   - (* ARecv *)
     apply J_with_call; auto. intros k k' Hn H.
     destruct (s_recv k) eqn:Er; try discriminate; destruct (k_pc k) eqn:Ep; try discriminate. inversion H; subst k'; clear H.
@@ -305,19 +414,23 @@ Proof.
   - (* ASend *)
     apply J_with_call; auto. intros k k' Hn H.
     destruct (k_pc k) eqn:Ep; try discriminate; destruct (s_sendq k) eqn:Eq; try discriminate. inversion H; subst k'; clear H.
-    split; auto. intros W (H1 & H2 & H3 & H4). unfold callJ. csimpl. rewrite Ep in *. repeat split; auto.
-    intros Ha. destruct (H4 Ha) as (nC & nR & S & A & B & C & D).
-    pose proof (api_ok_send _ _ _ Hapi) as Hz. unfold pend_close in *. rewrite Eq in *.
-    exists nC, nR. unfold pend_close. csimpl. repeat split; auto; try lia; try (apply D; auto).
+    split; auto. intros W (H1 & H2 & H3 & H4 & HR). unfold callJ. csimpl. rewrite Ep in *.
+    split; [simpl; lia|split; [auto|split; [auto|split]]].
+    + intros Ha Hok. destruct (H4 Ha (api_ok_prefix _ _ Hok)) as (nC & nR & S & A & B & C & D).
+      pose proof (api_ok_send _ _ _ Hok) as Hz. unfold pend_close in *. rewrite Eq in *.
+      exists nC, nR. unfold pend_close. csimpl. repeat split; auto; try lia; try (apply D; auto); try (rewrite closes_app; lia).
+    + eapply (rstJ_frame k _ ls); [reflexivity|reflexivity|reflexivity|reflexivity|reflexivity|auto|apply (proj2 (proj2 (ext_ok_snoc ls _)))|reflexivity|reflexivity|exact HR].
   - (* ACloseSend *)
     apply J_with_call; auto. intros k k' Hn H.
     destruct (k_pc k) eqn:Ep; try discriminate; destruct (s_sendq k) eqn:Eq; try discriminate. inversion H; subst k'; clear H.
-    split; auto. intros W (H1 & H2 & H3 & H4). unfold callJ. csimpl. rewrite Ep in *. repeat split; auto.
-    intros Ha. destruct (H4 Ha) as (nC & nR & S & A & B & C & D).
-    unfold pend_close in *. rewrite Eq in *.
-    exists nC, nR. unfold pend_close. csimpl. repeat split; auto; try (apply D; auto).
-    + rewrite closes_app. unfold closes at 2. simpl. rewrite Nat.eqb_refl. simpl. lia.
-    + intros; discriminate.
+    split; auto. intros W (H1 & H2 & H3 & H4 & HR). unfold callJ. csimpl. rewrite Ep in *.
+    split; [simpl; lia|split; [auto|split; [auto|split]]].
+    + intros Ha Hok. destruct (H4 Ha (api_ok_prefix _ _ Hok)) as (nC & nR & S & A & B & C & D).
+      unfold pend_close in *. rewrite Eq in *.
+      exists nC, nR. unfold pend_close. csimpl. repeat split; auto; try (apply D; auto).
+      * rewrite closes_app. unfold closes at 2. simpl. rewrite Nat.eqb_refl. simpl. lia.
+      * intros; discriminate.
+    + eapply (rstJ_frame k _ ls); [reflexivity|reflexivity|reflexivity|reflexivity|reflexivity|auto|apply (proj2 (proj2 (ext_ok_snoc ls _)))|reflexivity|reflexivity|exact HR].
   - (* AHeader *)
     apply J_with_call; auto. intros k k' Hn H.
     destruct (k_pc k) eqn:Ep; try discriminate; destruct (s_header k) eqn:Eq; try discriminate. inversion H; subst k'; clear H.
@@ -335,9 +448,9 @@ Proof.
     destruct (k_ctx k) eqn:Ep; try discriminate; destruct (s_ctxc k) eqn:Eq; try discriminate. inversion H; subst k'; clear H.
     split; auto. intros W HW. frame_tac.
   - (* ADeliver *)
-    eapply (J_same ls _ s _ []); eauto; try reflexivity; csimpl; try lia. rewrite app_nil_r; auto. intros; apply closes_snoc_le.
-  - eapply (J_same ls _ s _ []); eauto; try reflexivity; csimpl; try lia. rewrite app_nil_r; auto. intros; apply closes_snoc_le.
-  - eapply (J_same ls _ s _ []); eauto; try reflexivity; csimpl; try lia. rewrite app_nil_r; auto. intros; apply closes_snoc_le.
+    eapply (J_same ls _ s _ []); eauto; try reflexivity; csimpl; try lia. rewrite app_nil_r; auto. apply ext_ok_snoc.
+  - eapply (J_same ls _ s _ []); eauto; try reflexivity; csimpl; try lia. rewrite app_nil_r; auto. apply ext_ok_snoc.
+  - eapply (J_same ls _ s _ []); eauto; try reflexivity; csimpl; try lia. rewrite app_nil_r; auto. apply ext_ok_snoc.
 Qed.
 
 (* every call record is transformed by a function that keeps what callJ looks at *)
@@ -357,25 +470,15 @@ Qed.
 
 (* ---------- internal rules ---------- *)
 Ltac jN HI HS HJ E k' :=
-  eapply (J_updN _ _ _ _ _ _ k' HI HS HJ E); [reflexivity|reflexivity|reflexivity|reflexivity|intros; apply closes_snoc_le|].
+  eapply (J_updN _ _ _ _ _ _ k' HI HS HJ E); [reflexivity|reflexivity|reflexivity|reflexivity|apply ext_ok_snoc|].
 Ltac j0 HI HS HJ E k' evs :=
-  eapply (J_upd0 _ _ _ _ _ _ k' evs HI HS HJ E); [reflexivity|reflexivity|reflexivity|reflexivity|intros; apply closes_snoc_le|reflexivity|].
+  eapply (J_upd0 _ _ _ _ _ _ k' evs HI HS HJ E); [reflexivity|reflexivity|reflexivity|reflexivity|apply ext_ok_snoc|reflexivity|].
 Ltac jsame HJ evs :=
-  eapply (J_same _ _ _ _ evs HJ); [reflexivity | csimpl; rewrite <- ?app_assoc; reflexivity | reflexivity | csimpl; lia | intros; apply closes_snoc_le].
+  eapply (J_same _ _ _ _ evs HJ); [reflexivity | csimpl; rewrite <- ?app_assoc; reflexivity | reflexivity | csimpl; lia | apply ext_ok_snoc].
 
 Ltac getW HJ E :=
   let HW := fresh "HW" in
   pose proof (proj2 (proj2 HJ) _ _ E) as HW.
-
-Ltac pc_tac HW Ep :=
-  let A := fresh "KA" in let B := fresh "KB" in let C := fresh "KC" in let D := fresh "KD" in
-  destruct HW as (A & B & C & D); rewrite Ep in *; unfold callJ; fsimpl; repeat split; auto.
-
-Ltac jW HI HS HJ E k' evs :=
-  eapply (J_upd _ _ _ _ _ _ k' evs HI HS HJ E); [reflexivity|reflexivity|reflexivity|reflexivity|intros; apply closes_snoc_le| | ].
-
-Lemma wr_one_id (x : env) i : eid x = i -> 0 < i -> forall e, In e [x] -> eid e = i /\ 0 < i.
-Proof. intros H1 H2 e [<-|[]]. auto. Qed.
 
 Lemma kinv_noq k : kinv k -> k_pc k <> POpen -> s_sendq k = [].
 Proof.
@@ -386,11 +489,19 @@ Qed.
 Ltac frame_loop Hop E0 :=
   match goal with HW : callJ _ ?k0 _ _ |- _ =>
     let A := fresh "KA" in let B := fresh "KB" in let C := fresh "KC" in let D := fresh "KD" in
-    pose proof HW as (A & B & C & D);
-    eapply (callJ_frame _ k0); [reflexivity | reflexivity | reflexivity | reflexivity | | | | | | apply closes_snoc_le | exact HW];
-    clear D; fsimpl; rewrite ?Hop, ?E0 in *; fsimpl; auto;
-    try (intros; rewrite ?orb_true_r; auto with bool; fail); try (intros; discriminate)
+    let R0 := fresh "R0" in let R1 := fresh "R1" in let R2 := fresh "R2" in let R3 := fresh "R3" in let R4 := fresh "R4" in let R5 := fresh "R5" in
+    pose proof HW as (A & B & C & D & R0 & R1 & R2 & R3 & R4 & R5);
+    eapply (callJ_frame _ k0); [reflexivity | reflexivity | reflexivity | reflexivity | | | | | | | | | apply ext_ok_snoc | exact HW];
+    clear D R0 R1 R2 R3 R5; fsimpl; rewrite ?Hop, ?E0 in *; frame_fin R4;
+    try (let Hd := fresh in intros Hd; exfalso;
+         match goal with K : kinv _ |- _ => destruct (ki_done_dead _ K Hd) as [X _]; unfold loop_alive in X; rewrite E0 in X; discriminate end)
   end.
+
+Ltac jW HI HS HJ E k' evs :=
+  eapply (J_upd _ _ _ _ _ _ k' evs HI HS HJ E); [reflexivity|reflexivity|reflexivity|reflexivity|apply ext_ok_snoc| | ].
+
+Lemma wr_one_id (x : env) i : eid x = i -> 0 < i -> forall e, In e [x] -> eid e = i /\ 0 < i.
+Proof. intros H1 H2 e [<-|[]]. auto. Qed.
 
 Ltac jauto HI HS HJ E :=
   match goal with
@@ -400,9 +511,10 @@ Ltac jauto HI HS HJ E :=
   end.
 
 Lemma J_int ls s n r s' :
-  cinv s -> sinv s -> J ls s -> api_ok (ls ++ [LInt n]) -> nth_error (rules s) n = Some r -> r s = Some s' -> J (ls ++ [LInt n]) s'.
+  cinv s -> sinv s -> J ls s -> (no_wfail ls -> wfail s = false) ->
+  nth_error (rules s) n = Some r -> r s = Some s' -> J (ls ++ [LInt n]) s'.
 Proof.
-  intros HI HS HJ Hapi Hr H. apply nth_error_In in Hr. apply rules_in in Hr.
+  intros HI HS HJ Hwf Hr H. apply nth_error_In in Hr. apply rules_in in Hr.
   destruct Hr as [->|[->|(c & _ & Hin)]];
     [ | | simpl in Hin; repeat (destruct Hin as [<-|Hin]); try (exfalso; exact Hin) ].
   - unfold r_rl_unblock in H. open_rule H.
@@ -415,18 +527,17 @@ Proof.
       * intros k. destruct (k_reg k); reflexivity.
       * intros c k W HW. destruct (k_reg k) eqn:Er.
         -- frame_tac.
-        -- eapply callJ_mono; [apply closes_snoc_le|]. auto.
+        -- eapply callJ_mono; [apply ext_ok_snoc|]. auto.
     + jsame HJ [EvRead e (Some n0)].
     + getW HJ E2. j0 HI HS HJ E2 (set_chan c {| cbuf := Some e; cclosed := false |} true) [EvRead e (Some n0)]. frame_tac.
     + jsame HJ [EvRead e None; EvUnhandled (eid e)].
-  - unfold r_check in H. open_rule H.
-    + getW HJ E. j0 HI HS HJ E (set_pc c0 PRet) [EvUnaryRet c (UErr EConn)]. pc_tac HW E0.
-    + getW HJ E. j0 HI HS HJ E (set_pc c0 POpenFailed) [EvOpenRet c (Some EConn)]. pc_tac HW E0.
-    + getW HJ E. jN HI HS HJ E (set_pc c0 PParked). pc_tac HW E0.
-    + getW HJ E. pose proof (cinv_call _ _ _ HI E) as K.
-      eapply (J_alloc ls _ s _ c c0 (set_id (set_pc c0 PReg) (counter s + 1)) HI HJ E); try reflexivity.
+  - unfold r_check in H. open_rule H; getW HJ E; pose proof (cinv_call _ _ _ HI E) as K.
+    + j0 HI HS HJ E (set_pc c0 PRet) [EvUnaryRet c (UErr EConn)]. pc_tac HW E0.
+    + j0 HI HS HJ E (set_pc c0 POpenFailed) [EvOpenRet c (Some EConn)]. pc_tac HW E0.
+    + jN HI HS HJ E (set_pc c0 PParked). pc_tac HW E0.
+    + eapply (J_alloc ls _ s _ c c0 (set_id (set_pc c0 PReg) (counter s + 1)) HI HJ E); try reflexivity.
       * apply (ki_noid _ K). rewrite E0. reflexivity.
-      * intros; apply closes_snoc_le.
+      * apply ext_ok_snoc.
       * pc_tac HW E0.
   - unfold r_reg in H. open_rule H; getW HJ E; pose proof (cinv_call _ _ _ HI E) as K;
       assert (Hpos : 0 < k_id c0) by (apply (ki_id _ K); rewrite E0; reflexivity).
@@ -436,23 +547,27 @@ Proof.
          (PUnreg (UErr (if ctx_done (k_ctx c0) then ctx_raw c0 else EWrite)))). pc_tac HW E0.
     + jW HI HS HJ E (set_pc (set_chan c0 {| cbuf := None; cclosed := false |} true) PWait) [EvWrite (req_env (k_id c0) (k_payload c0))].
       * apply wr_one_id; auto.
-      * destruct HW as (A & B & C & D). rewrite E0 in *. rewrite D. unfold callJ; fsimpl. repeat split; auto.
+      * destruct HW as (A & B & C & D & R). rewrite E0 in *. rewrite D. unfold callJ; fsimpl.
+        split; [|split; [|split; [|split]]]; auto.
+        apply rstJ_closed; csimpl; try discriminate; auto; [rewrite (kinv_dead _ K) by (rewrite E0; discriminate); discriminate | apply (kinv_notdone _ K); rewrite E0; discriminate].
     + jN HI HS HJ E (set_pc (set_chan c0 {| cbuf := None; cclosed := false |} true)
          (POpenUnreg (if ctx_done (k_ctx c0) then ctx_raw c0 else EWrite))). pc_tac HW E0.
     + jW HI HS HJ E (set_loop (set_pc (set_chan c0 {| cbuf := None; cclosed := false |} true) POpen) LRead)
          [EvWrite (open_env (k_id c0)); EvOpenRet c None].
       * apply wr_one_id; auto.
-      * destruct HW as (A & B & C & D). rewrite E0 in *. rewrite D. unfold callJ; fsimpl. repeat split; auto.
-        intros Ha. exists 0%nat, 0%nat. unfold pend_close. csimpl.
-        rewrite (kinv_noq _ K) by congruence. simpl. repeat split; auto; try lia; try discriminate.
-        apply sshape_open.
-  - unfold r_wait in H. open_rule H; getW HJ E.
+      * destruct HW as (A & B & C & D & R). rewrite E0 in *. rewrite D. unfold callJ; fsimpl.
+        split; [|split; [|split; [|split]]]; auto.
+        -- intros Ha Hok. exists 0%nat, 0%nat. unfold pend_close. csimpl.
+           rewrite (kinv_noq _ K) by congruence. simpl. repeat split; auto; try lia; try discriminate.
+           apply sshape_open.
+        -- apply rstJ_zero; csimpl; auto; try discriminate. apply (kinv_notdone _ K); rewrite E0; discriminate.
+  - unfold r_wait in H. open_rule H; getW HJ E; pose proof (cinv_call _ _ _ HI E) as K.
     + j0 HI HS HJ E (set_pc (set_chan c0 {| cbuf := None; cclosed := cclosed (k_chan c0) |} (k_reg c0)) (PUnreg (classify e))) [EvTake c e].
       pc_tac HW E0.
     + jN HI HS HJ E (set_pc c0 (PUnreg (UErr EClosed))). pc_tac HW E0.
-  - unfold r_wait_ctx in H. open_rule H; getW HJ E.
+  - unfold r_wait_ctx in H. open_rule H; getW HJ E; pose proof (cinv_call _ _ _ HI E) as K.
     jN HI HS HJ E (set_pc c0 (PUnreg (UErr (ctx_raw c0)))). pc_tac HW E0.
-  - unfold r_unreg in H. open_rule H; getW HJ E; destruct (k_reg c0) eqn:Er.
+  - unfold r_unreg in H. open_rule H; getW HJ E; pose proof (cinv_call _ _ _ HI E) as K; destruct (k_reg c0) eqn:Er.
     + j0 HI HS HJ E (set_pc (set_chan c0 {| cbuf := cbuf (k_chan c0); cclosed := true |} false) PRet) [EvUnaryRet c r]. pc_tac HW E0.
     + j0 HI HS HJ E (set_pc c0 PRet) [EvUnaryRet c r]. pc_tac HW E0.
     + j0 HI HS HJ E (set_pc (set_chan c0 {| cbuf := cbuf (k_chan c0); cclosed := true |} false) POpenFailed) [EvOpenRet c (Some e)]. pc_tac HW E0.
@@ -464,7 +579,7 @@ Proof.
     + j0 HI HS HJ E (loop_exit (set_latch (set_chan c0 {| cbuf := None; cclosed := cclosed (k_chan c0) |} (k_reg c0))
             (inl match ehdr e with Some m => m | None => MdOk 0 end)) (Some c1)
             match etrl e with Some _ => true | None => false end (etrl e) false) [EvTake c e].
-      frame_loop Hop E0.
+      frame_loop Hop E0. intros _ Hc. rewrite (final_not_ctx _ _ E3) in Hc. discriminate.
     + j0 HI HS HJ E (set_loop (set_latch (set_chan c0 {| cbuf := None; cclosed := cclosed (k_chan c0) |} (k_reg c0))
             (inl match ehdr e with Some m => m | None => MdOk 0 end)) (LHand z)) [EvTake c e].
       frame_loop Hop E0.
@@ -472,7 +587,7 @@ Proof.
             (inl match ehdr e with Some m => m | None => MdOk 0 end)) [EvTake c e].
       frame_loop Hop E0.
     + jN HI HS HJ E (loop_exit (set_latch c0 (inr (if rerr s then EConn else EClosed))) (Some (if rerr s then EConn else EClosed)) false None false).
-      frame_loop Hop E0.
+      frame_loop Hop E0. intros _ Hc. destruct (rerr s); discriminate.
   - unfold r_loop_read_ctx in H. open_rule H; getW HJ E; pose proof (cinv_call _ _ _ HI E) as K;
       assert (Hop : k_pc c0 = POpen) by (apply (ki_loop_open _ K); unfold loop_alive; rewrite E0; reflexivity).
     jauto HI HS HJ E. frame_loop Hop E0.
@@ -487,13 +602,33 @@ Proof.
     + assert (Hpos : 0 < k_id c0) by (apply (ki_id _ K); rewrite Hop; reflexivity).
       match goal with |- J _ (add_log (set_call _ _ ?k') ?evs) => jW HI HS HJ E k' evs end.
       * apply wr_one_id; auto.
-      * destruct HW as (A & B & C & D). rewrite Hop in *. unfold callJ. fsimpl. rewrite ?Hop. repeat split; auto; try discriminate.
-        intros Ha. destruct (D Ha) as (nC & nR & S & A1 & B1 & C1 & D1).
+      * destruct HW as (A & B & C & D & R0 & R1 & R2 & R3 & R4 & R5). rewrite Hop in *.
+        assert (Hn0 : nrst (projE (k_id c0) (wr s)) = 0%nat).
+        { destruct (nrst (projE (k_id c0) (wr s))) as [|[|m]]; auto; try lia. destruct (R2 eq_refl) as [X _]. rewrite E0 in X. discriminate. }
+        rewrite !andb_true_iff, negb_true_iff in E1. destruct E1 as [[Et Ec] Ew].
+        unfold callJ. fsimpl. rewrite ?Hop. split; [|split; [|split; [|split]]]; auto; try discriminate.
+        -- intros Ha Hok. destruct (D Ha (api_ok_prefix _ _ Hok)) as (nC & nR & S & A1 & B1 & C1 & D1).
+           assert (nR = 0%nat). { destruct nR; auto. destruct nR; try lia. destruct (D1 eq_refl) as [X _]. rewrite E0 in X. discriminate. }
+           subst nR. exists nC, 1%nat. unfold streamJ, pend_close in *. csimpl. repeat split; auto; try (rewrite closes_app; lia).
+           ++ apply sshape_rst; auto.
+           ++ rewrite Ha, orb_false_l in Ec. exact Ec.
+        -- unfold rstJ. csimpl. rewrite nrst_app, Hn0. change (nrst (wr_of [EvWrite (rst_env (k_id c0))])) with 1%nat. simpl. unfold sctx_done. csimpl.
+           split; [congruence|split; [lia|split; [|split; [|split]]]]; auto; try discriminate.
+           intros _. split; [reflexivity|split; [auto|]]. apply orb_true_iff in Ec. tauto.
+    + match goal with |- J _ (set_call _ _ ?k') => jN HI HS HJ E k' end.
+      destruct HW as (A & B & C & D & R0 & R1 & R2 & R3 & R4 & R5). rewrite Hop in *.
+      assert (Hn0 : nrst (projE (k_id c0) (wr s)) = 0%nat).
+      { destruct (nrst (projE (k_id c0) (wr s))) as [|[|m]]; auto; try lia. destruct (R2 eq_refl) as [X _]. rewrite E0 in X. discriminate. }
+      unfold callJ. fsimpl. rewrite ?Hop. split; [|split; [|split; [|split]]]; auto; try discriminate.
+      * intros Ha Hok. destruct (D Ha (api_ok_prefix _ _ Hok)) as (nC & nR & S & A1 & B1 & C1 & D1).
         assert (nR = 0%nat). { destruct nR; auto. destruct nR; try lia. destruct (D1 eq_refl) as [X _]. rewrite E0 in X. discriminate. }
-        subst nR. exists nC, 1%nat. unfold streamJ, pend_close in *. csimpl. repeat split; auto; try (rewrite closes_app; lia).
-        -- apply sshape_rst; auto.
-        -- rewrite Ha, orb_false_l, !andb_true_iff in E1. destruct E1 as [[_ X] _]. exact X.
-    + match goal with |- J _ (set_call _ _ ?k') => jN HI HS HJ E k' end. frame_loop Hop E0.
+        subst nR. exists nC, 0%nat. unfold streamJ, pend_close in *. csimpl. repeat split; auto; try (rewrite closes_app; lia); try discriminate.
+      * unfold rstJ. csimpl. rewrite Hn0. split; [auto|split; [lia|split; [discriminate|split; [|split; [discriminate|auto]]]]].
+        intros _ _ Hnw Ht Hc. exfalso.
+        assert (Hw0 : wfail s = false) by (apply Hwf; intros x Hx; apply Hnw; apply in_or_app; auto).
+        assert (Hsd : l_abort c0 || sctx_done c0 = true).
+        { unfold sctx_done in *. destruct Hc as [Hc|Hc]; [rewrite Hc; reflexivity|]. rewrite (R4 E0 Hc). apply orb_true_r. }
+        unfold sctx_done in *. rewrite Ht, Hsd, Hw0 in E1. simpl in E1. discriminate.
   - unfold r_loop_unreg in H. open_rule H; getW HJ E; pose proof (cinv_call _ _ _ HI E) as K;
       assert (Hop : k_pc c0 = POpen) by (apply (ki_loop_open _ K); unfold loop_alive; rewrite E0; reflexivity).
     jauto HI HS HJ E. frame_loop Hop E0.
@@ -503,42 +638,55 @@ Proof.
   - unfold r_send in H. open_rule H; getW HJ E; pose proof (cinv_call _ _ _ HI E) as K;
       assert (Hop : k_pc c0 = POpen) by (apply (ki_ops_open _ K); unfold ops_pending, send_pending; rewrite E0; rewrite !orb_true_r; auto with bool);
       assert (Hpos : 0 < k_id c0) by (apply (ki_id _ K); rewrite Hop; reflexivity);
-      destruct HW as (A & B & C & D); rewrite Hop, E0 in *;
+      destruct HW as (A & B & C & D & R); rewrite Hop, E0 in *;
       assert (l = []) by (destruct l; auto; simpl in A; lia); subst l;
-      assert (Hcl : (closes c (ls ++ [LInt n]) <= 1)%nat) by (apply Hapi);
-      assert (Hcl2 : closes c (ls ++ [LInt n]) = closes c ls) by (rewrite closes_app; unfold closes at 2; simpl; lia).
+      assert (Hcl2 : closes c (ls ++ [LInt n]) = closes c ls) by (rewrite closes_app; unfold closes at 2; simpl; lia);
+      assert (HNW : no_wfail (ls ++ [LInt n]) -> no_wfail ls) by (apply (ext_ok_snoc ls)).
     + (* the stream is done *)
-      jauto HI HS HJ E. unfold callJ. fsimpl. rewrite ?Hop. repeat split; auto.
-      intros Ha. destruct (D Ha) as (nC & nR & S & A1 & B1 & C1 & D1). exists nC, nR. unfold pend_close in *. rewrite E0 in *. csimpl.
-      repeat split; auto; try lia; try (apply D1; auto); try (intros; discriminate).
+      jauto HI HS HJ E. unfold callJ. fsimpl. rewrite ?Hop. split; [simpl; lia|split; [auto|split; [auto|split]]].
+      * intros Ha Hok. destruct (D Ha (api_ok_prefix _ _ Hok)) as (nC & nR & S & A1 & B1 & C1 & D1). exists nC, nR. unfold pend_close in *. rewrite E0 in *. csimpl.
+        repeat split; auto; try lia; try (apply D1; auto); try (intros; discriminate).
+      * eapply (rstJ_frame c0 _ ls); [csimpl; congruence|reflexivity|reflexivity|reflexivity|reflexivity|auto|exact HNW|csimpl; congruence|reflexivity|exact R].
     + (* the write fails *)
-      jauto HI HS HJ E. unfold callJ. fsimpl. rewrite ?Hop. repeat split; auto.
-      intros Ha. destruct (D Ha) as (nC & nR & S & A1 & B1 & C1 & D1). exists nC, nR. unfold pend_close in *. rewrite E0 in *. csimpl.
-      repeat split; auto; try lia; try (apply D1; auto); try (intros; discriminate).
+      jauto HI HS HJ E. unfold callJ. fsimpl. rewrite ?Hop. split; [simpl; lia|split; [auto|split; [auto|split]]].
+      * intros Ha Hok. destruct (D Ha (api_ok_prefix _ _ Hok)) as (nC & nR & S & A1 & B1 & C1 & D1). exists nC, nR. unfold pend_close in *. rewrite E0 in *. csimpl.
+        repeat split; auto; try lia; try (apply D1; auto); try (intros; discriminate).
+      * eapply (rstJ_frame c0 _ ls); [csimpl; congruence|reflexivity|reflexivity|reflexivity|reflexivity| |exact HNW|csimpl; congruence|reflexivity|exact R].
+        unfold sctx_done. csimpl. auto.
     + (* a body is written *)
       match goal with |- J _ (add_log (set_call _ _ ?k') ?evs) => jW HI HS HJ E k' evs end.
       * apply wr_one_id; auto.
-      * unfold callJ. fsimpl. rewrite ?Hop. repeat split; auto.
-        intros Ha. destruct (D Ha) as (nC & nR & S & A1 & B1 & C1 & D1).
-        assert (nC = 0%nat) by (eapply B1; eauto). subst nC.
-        assert (nR = 0%nat). { destruct nR; auto. destruct nR; try lia. destruct (D1 eq_refl) as [_ X].
-                               apply orb_false_iff in E4. destruct E4 as [E4 _]. unfold sctx_done in X. congruence. }
-        subst nR. exists 0%nat, 0%nat. unfold pend_close in *. rewrite E0 in *. csimpl.
-        repeat split; auto; try lia; try discriminate. apply sshape_body; auto.
+      * apply orb_false_iff in E4. destruct E4 as [E4 _].
+        unfold callJ. fsimpl. rewrite ?Hop. split; [simpl; lia|split; [auto|split; [auto|split]]].
+        -- intros Ha Hok. destruct (D Ha (api_ok_prefix _ _ Hok)) as (nC & nR & S & A1 & B1 & C1 & D1).
+           assert (nC = 0%nat) by (eapply B1; eauto). subst nC.
+           assert (nR = 0%nat). { destruct nR; auto. destruct nR; try lia. destruct (D1 eq_refl) as [_ X]. unfold sctx_done in X. congruence. }
+           subst nR. exists 0%nat, 0%nat. unfold pend_close in *. rewrite E0 in *. csimpl.
+           repeat split; auto; try lia; try discriminate. apply sshape_body; auto.
+        -- destruct R as (R0 & R1 & R2 & R3 & R4 & R5). unfold rstJ. csimpl. rewrite nrst_app.
+           change (nrst (wr_of [EvWrite (body_env (k_id c0) z); EvSendRet c None])) with 0%nat. rewrite Nat.add_0_r. rewrite ?Hop.
+           split; [auto|split; [auto|split; [|split; [|split]]]]; auto;
+           try (intros Hr Hp Hnw; apply R3; auto).
     + (* CloseSend fails *)
-      jauto HI HS HJ E. unfold callJ. fsimpl. rewrite ?Hop. repeat split; auto.
-      intros Ha. destruct (D Ha) as (nC & nR & S & A1 & B1 & C1 & D1). exists nC, nR. unfold pend_close in *. rewrite E0 in *. csimpl.
-      repeat split; auto; try lia; try (apply D1; auto); try (intros; discriminate).
+      jauto HI HS HJ E. unfold callJ. fsimpl. rewrite ?Hop. split; [simpl; lia|split; [auto|split; [auto|split]]].
+      * intros Ha Hok. destruct (D Ha (api_ok_prefix _ _ Hok)) as (nC & nR & S & A1 & B1 & C1 & D1). exists nC, nR. unfold pend_close in *. rewrite E0 in *. csimpl.
+        repeat split; auto; try lia; try (apply D1; auto); try (intros; discriminate).
+      * eapply (rstJ_frame c0 _ ls); [csimpl; congruence|reflexivity|reflexivity|reflexivity|reflexivity|auto|exact HNW|csimpl; congruence|reflexivity|exact R].
     + (* the trailer is written *)
       match goal with |- J _ (add_log (set_call _ _ ?k') ?evs) => jW HI HS HJ E k' evs end.
       * apply wr_one_id; auto.
-      * unfold callJ. fsimpl. rewrite ?Hop. repeat split; auto.
-        intros Ha. destruct (D Ha) as (nC & nR & S & A1 & B1 & C1 & D1). unfold pend_close in *. rewrite E0 in *.
-        assert (nC = 0%nat) by lia. subst nC.
-        assert (nR = 0%nat). { destruct nR; auto. destruct nR; try lia. destruct (D1 eq_refl) as [_ X].
-                               apply orb_false_iff in E2. destruct E2 as [E2 _]. unfold sctx_done in X. congruence. }
-        subst nR. exists 1%nat, 0%nat. unfold pend_close. csimpl.
-        repeat split; auto; try lia; try discriminate. apply sshape_close; auto.
+      * apply orb_false_iff in E2. destruct E2 as [E2 _].
+        unfold callJ. fsimpl. rewrite ?Hop. split; [simpl; lia|split; [auto|split; [auto|split]]].
+        -- intros Ha Hok. destruct (D Ha (api_ok_prefix _ _ Hok)) as (nC & nR & S & A1 & B1 & C1 & D1). unfold pend_close in *. rewrite E0 in *.
+           assert (Hcl : (closes c (ls ++ [LInt n]) <= 1)%nat) by (apply Hok).
+           assert (nC = 0%nat) by lia. subst nC.
+           assert (nR = 0%nat). { destruct nR; auto. destruct nR; try lia. destruct (D1 eq_refl) as [_ X]. unfold sctx_done in X. congruence. }
+           subst nR. exists 1%nat, 0%nat. unfold pend_close. csimpl.
+           repeat split; auto; try lia; try discriminate. apply sshape_close; auto.
+        -- destruct R as (R0 & R1 & R2 & R3 & R4 & R5). unfold rstJ. csimpl. rewrite nrst_app.
+           change (nrst (wr_of [EvWrite (close_env (k_id c0)); EvCloseSendRet c None])) with 0%nat. rewrite Nat.add_0_r. rewrite ?Hop.
+           split; [auto|split; [auto|split; [|split; [|split]]]]; auto;
+           try (intros Hr Hp Hnw; apply R3; auto).
 Qed.
 
 (* ---------- all runs ---------- *)
@@ -549,15 +697,38 @@ Proof.
   - destruct (lstep s a) eqn:E; try discriminate. apply IHls in H. destruct H as (s1 & H1 & H2). eauto.
 Qed.
 
-Lemma J_reach ls : forall s, lrun init ls = Some s -> api_ok ls -> J ls s.
+Lemma wfail_with_call s c f : wfail (with_call s c f) = wfail s.
+Proof. unfold with_call. destruct (nth_error (calls s) c) as [k|]; [destruct (f k)|]; reflexivity. Qed.
+
+(* writes never fail unless the environment switches the failure on *)
+Lemma wfail_reach ls : forall s, lrun init ls = Some s -> no_wfail ls -> wfail s = false.
 Proof.
-  induction ls using rev_ind; intros s H Hapi.
+  induction ls using rev_ind; intros s H Hnw.
+  - simpl in H. inversion H; subst. reflexivity.
+  - apply lrun_snoc_inv in H. destruct H as (s1 & H1 & H2).
+    assert (Hnw1 : no_wfail ls) by (intros y Hy; apply Hnw; apply in_or_app; auto).
+    pose proof (IHls _ H1 Hnw1) as Hw.
+    destruct x as [a|n]; simpl in H2.
+    + inversion H2; subst. destruct a; simpl; rewrite ?wfail_with_call; auto.
+      * repeat match goal with |- context [match ?x with _ => _ end] => destruct x end; auto.
+      * destruct b; auto. specialize (Hnw (LExt (ASetWriteFail true))). simpl in Hnw.
+        assert (true = false) by (apply Hnw; apply in_or_app; right; left; auto). discriminate.
+    + destruct (nth_error (rules s1) n) eqn:E; try discriminate. apply nth_error_In in E. apply rules_in in E.
+      destruct E as [->|[->|(c & _ & Hin)]];
+        [ | | simpl in Hin; repeat (destruct Hin as [<-|Hin]); try (exfalso; exact Hin) ].
+      all: match type of H2 with ?r _ _ = Some _ => unfold r in H2 | ?r _ = Some _ => unfold r in H2 end; open_rule H2; csimpl; auto.
+Qed.
+
+Lemma J_reach ls : forall s, lrun init ls = Some s -> J ls s.
+Proof.
+  induction ls using rev_ind; intros s H.
   - simpl in H. inversion H; subst. apply J_init.
   - apply lrun_snoc_inv in H. destruct H as (s1 & H1 & H2).
-    pose proof (inv_reach _ _ H1) as [HI HS]. pose proof (IHls _ H1 (api_ok_prefix _ _ Hapi)) as HJ.
+    pose proof (inv_reach _ _ H1) as [HI HS]. pose proof (IHls _ H1) as HJ.
     destruct x as [a|n]; simpl in H2.
     + inversion H2; subst. apply J_ext; auto.
     + destruct (nth_error (rules s1) n) eqn:E; try discriminate. eapply J_int; eauto.
+      intros Hnw. eapply wfail_reach; eauto.
 Qed.
 
 (* ---------- from the shapes to the automaton ---------- *)
@@ -624,16 +795,65 @@ Theorem C06_client_l ls s rt i :
   (forall c k, nth_error (calls s) c = Some k -> k_id k = i -> l_abort k = false) ->
   proto_c2s (proj i (map (lift rt) (wr s))) = true.
 Proof.
-  intros H Hapi Hab. pose proof (J_reach _ _ H Hapi) as (J1 & J2 & J3). rewrite proj_lift.
+  intros H Hapi Hab. pose proof (J_reach _ _ H) as (J1 & J2 & J3). rewrite proj_lift.
   destruct (projE i (wr s)) eqn:EW; [reflexivity|].
   assert (Hin : In e (projE i (wr s))) by (rewrite EW; left; auto).
   apply projE_in in Hin. destruct Hin as [Hin Hid]. destruct (J2 _ Hin) as (c & k & Hn & Hk).
   rewrite <- EW. clear EW. rewrite Hid in Hk. clear Hid. subst i.
-  destruct (J3 _ _ Hn) as (A & B & C & D).
+  destruct (J3 _ _ Hn) as (A & B & C & D & R).
   destruct (k_pc k); try (rewrite D; reflexivity); try (destruct D as [D|D]; rewrite D; try reflexivity; apply req_proto).
   - rewrite D. apply req_proto.
-  - destruct (D (Hab _ _ Hn eq_refl)) as (nC & nR & S & A1 & B1 & C1 & D1).
+  - destruct (D (Hab _ _ Hn eq_refl) Hapi) as (nC & nR & S & A1 & B1 & C1 & D1).
     eapply sshape_proto; eauto. destruct (Hapi c) as [Hle _]. lia.
+Qed.
+
+(* ---------- C07: the reset envelope ---------- *)
+Definition rsts (i : Z) (s : state) : nat := nrst (projE i (wr s)).
+
+(* never two resets for one stream; a reset is written only by a stream whose loop has ended without having
+   received a trailer, because of an abort or because its context is done *)
+Lemma C07_reset_once_l ls s c k :
+  lrun init ls = Some s -> nth_error (calls s) c = Some k ->
+  (rsts (k_id k) s <= 1)%nat /\
+  (rsts (k_id k) s = 1%nat -> k_pc k = POpen /\ rst_loop (s_loop k) = true /\ l_hastrl k = false /\ (l_abort k = true \/ sctx_done k = true)).
+Proof.
+  intros H Hn. destruct (J_reach _ _ H) as (J1 & J2 & J3). destruct (J3 _ _ Hn) as (A & B & C & D & R0 & R1 & R2 & R3 & R4).
+  unfold rsts. split; auto. intros H1. destruct (R2 H1) as (X1 & X2 & X3). repeat split; auto.
+  destruct (k_pc k) eqn:Ep; auto; exfalso; assert (Hne : k_pc k <> POpen) by congruence; rewrite Ep in *; specialize (R0 ltac:(discriminate)); lia.
+Qed.
+
+(* every reset on the wire belongs to such a stream: none for any other id *)
+Lemma C07_reset_owner_l ls s e :
+  lrun init ls = Some s -> In e (wr s) -> erst e = true ->
+  exists c k, nth_error (calls s) c = Some k /\ k_id k = eid e /\ k_pc k = POpen /\ rst_loop (s_loop k) = true /\
+              l_hastrl k = false /\ (l_abort k = true \/ sctx_done k = true).
+Proof.
+  intros H Hin He. pose proof (J_reach _ _ H) as (J1 & J2 & J3). destruct (J2 _ Hin) as (c & k & Hn & Hk).
+  exists c, k. split; auto. split; auto.
+  destruct (C07_reset_once_l _ _ _ _ H Hn) as [Hle H1]. apply H1. unfold rsts.
+  assert (Hi : In e (filter erst (projE (k_id k) (wr s)))).
+  { apply filter_In. split; auto. unfold projE. apply filter_In. split; auto. lia. }
+  unfold rsts, nrst in *. destruct (filter erst (projE (k_id k) (wr s))) as [|x [|y t]]; simpl in *; try tauto; lia.
+Qed.
+
+(* the reset IS written: once the loop of a stream has ended because of its context (its terminal error is the
+   Canceled / DeadlineExceeded status) or by an abort, without a trailer, exactly one reset for its id is on the
+   wire - provided the environment never made writes fail *)
+Lemma C07_reset_sent_l ls s c k :
+  lrun init ls = Some s -> no_wfail ls -> nth_error (calls s) c = Some k ->
+  k_pc k = POpen -> rst_loop (s_loop k) = true -> l_hastrl k = false ->
+  (l_abort k = true \/ is_ctx_err (l_rerr k) = true) -> rsts (k_id k) s = 1%nat.
+Proof.
+  intros H Hnw Hn Hp Hl Ht Hc. destruct (J_reach _ _ H) as (J1 & J2 & J3).
+  destruct (J3 _ _ Hn) as (A & B & C & D & R0 & R1 & R2 & R3 & R4). apply R3; auto.
+Qed.
+
+(* once the stream is done its published terminal error is the error its loop ended with *)
+Lemma C07_rerr_l ls s c k :
+  lrun init ls = Some s -> nth_error (calls s) c = Some k -> s_done k = true -> s_rerr k = l_rerr k.
+Proof.
+  intros H Hn Hd. destruct (J_reach _ _ H) as (J1 & J2 & J3).
+  destruct (J3 _ _ Hn) as (A & B & C & D & R0 & R1 & R2 & R3 & R4 & R5). auto.
 Qed.
 
 (* ---------- a decidable form of the users' conformance (for concrete runs) ---------- *)
